@@ -203,8 +203,17 @@ fn drive(c: &Case) -> Result<Seen, mon::PanicInfo> {
                             let _ = rc.write(RdpEvent::Key(KeyboardEvent { code, down }));
                         }
                         Client::Plain(p) => {
-                            let _ = p.global.write_input_event(ts_pointer_event(Some(r.u16()), Some(x), Some(y)), &mut p.mcs);
-                            let _ = p.global.write_input_event(ts_keyboard_event(Some(r.u16()), Some(code)), &mut p.mcs);
+                            // the constructors take optional arguments (absent = 0): every way of leaving some out
+                            let opt = |r: &mut Rng, v: u16| match r.below(4) {
+                                0 => None,
+                                1 => Some(0),
+                                _ => Some(v),
+                            };
+                            let (v1, v2) = (r.u16(), r.u16());
+                            let (f1, ox, oy) = (opt(&mut r, v1), opt(&mut r, x), opt(&mut r, y));
+                            let _ = p.global.write_input_event(ts_pointer_event(f1, ox, oy), &mut p.mcs);
+                            let (f2, oc) = (opt(&mut r, v2), opt(&mut r, code));
+                            let _ = p.global.write_input_event(ts_keyboard_event(f2, oc), &mut p.mcs);
                         }
                     }
                 }
